@@ -34,8 +34,16 @@ Arguments pcof : simpl never.
 Inductive disp_glob (P : params) (g : glob) : glob -> loc -> Prop :=
 | dg_same lc' : (forall l, at_ lc' <> P_store l) -> disp_glob P g g lc'
 | dg_null lc' : unfixed P = true -> at_ lc' = Idle -> disp_glob P g (set_null g) lc'
-| dg_bump lc' l : at_ lc' = P_store l -> disp_glob P g (bump_destroyed g l) lc'.
+| dg_bump lc' l : at_ lc' = P_store l -> disp_glob P g (bump_destroyed g l) lc'
+| dg_rel lc' l : at_ lc' = Idle -> disp_glob P g (set_released g l) lc'
+| dg_sdet lc' s l : at_ lc' = Idle -> disp_glob P g (set_sdet g s l) lc'.
 
+Ltac disp_destruct H :=
+  repeat match type of H with
+         | context [match ?x with _ => _ end] => destruct x eqn:?; cbn in H
+         | context [if ?x then _ else _] => destruct x eqn:?; cbn in H
+         end;
+  inversion H; subst; clear H.
 Ltac disp_cases H :=
   unfold dispatch in H;
   repeat match type of H with
@@ -50,7 +58,9 @@ Proof.
   intros H. disp_cases H;
     first [ apply dg_same; cbn; intros; discriminate
           | apply dg_null; [assumption|reflexivity]
-          | apply dg_bump; reflexivity ].
+          | apply dg_bump; reflexivity
+          | apply dg_rel; reflexivity
+          | apply dg_sdet; reflexivity ].
 Qed.
 
 Lemma dispatch_prog P g lc o r g' lc' es :
@@ -104,7 +114,9 @@ Proof.
   - (* invoke *)
     destruct (prog lc) as [|o r] eqn:Hpr; [discriminate|]. inversion Hs as [Hd]; clear Hs.
     pose proof (dispatch_glob _ _ _ _ _ _ _ _ Hd) as HG.
-    destruct HG as [lc' Hns|lc' Hu Hidle|lc' l0 Hst]; constructor; cbn; auto.
+    destruct HG as [lc' Hns|lc' Hu Hidle|lc' l0 Hst|lc' l0 Hidle|lc' s0 l0 Hidle]; constructor; cbn; auto.
+    6: { intros u l1. rewrite Hpcu. destruct (Nat.eqb u t); [rewrite Hidle; discriminate|apply Hdpc]. }
+    6: { intros u l1. rewrite Hpcu. destruct (Nat.eqb u t); [rewrite Hidle; discriminate|apply Hdpc]. }
     + intros u l0. rewrite Hpcu. destruct (Nat.eqb u t); [intros E; exfalso; eapply Hns; eauto|apply Hdpc].
     + intros u l0. rewrite Hpcu. destruct (Nat.eqb u t); [rewrite Hidle; discriminate|apply Hdpc].
     + congruence.
@@ -564,9 +576,33 @@ Definition det_after (P : params) (Dt : nat -> option nat) (o : op) : nat -> opt
   | _ => Dt
   end.
 
-Lemma dispatch_det P g lc o r g' lc' es :
+Lemma dispatch_det P g lc o r g' lc' es : (forall l, released g l = false) ->
   dispatch P g lc o r = (g', lc', es) -> det lc' = det_after P (det lc) o.
-Proof. intros H. unfold det_after. disp_cases H; cbn; try reflexivity; rewrite ?Heqo0, ?Heqb; reflexivity. Qed.
+Proof.
+  intros Hrel H. unfold det_after. unfold dispatch in H. destruct o; unfold exp_ok in H; rewrite ?Hrel in H;
+    cbn [negb] in H; rewrite ?andb_true_r in H; cbv beta iota zeta in H;
+    repeat match type of H with
+           | context [match ?x with _ => _ end] => destruct x eqn:?; cbv beta iota zeta in H
+           | context [if ?x then _ else _] => destruct x eqn:?; cbv beta iota zeta in H
+           end;
+    inversion H; subst; clear H; cbn [det];
+    repeat match goal with E : _ = _ |- _ => rewrite E end; reflexivity.
+Qed.
+
+(* what the invoke step does to the harness-side tables *)
+Definition sdet_line (P : params) (o : op) : option nat :=
+  match o with
+  | MkSDetE _ l => Some (line_exp P l) | MkSDetD _ => Some line_decl | MkSDetI _ i => Some (line_idx i)
+  | _ => None
+  end.
+Lemma dispatch_tables P g lc o r g' lc' es :
+  dispatch P g lc o r = (g', lc', es) ->
+  (released g' = released g \/ exists l, o = ReleaseLine l) /\
+  (forall s l, sdet g' s = Some l -> sdet g s = Some l \/ sdet_line P o = Some l).
+Proof.
+  intros H. disp_cases H; (split; [eauto|]); cbn; intros s0 l0 E; auto;
+    unfold fupd in E; destruct (Nat.eqb s0 _); auto; inversion E; subst; auto.
+Qed.
 
 Lemma dispatch_trg P g lc o r g' lc' es s l :
   dispatch P g lc o r = (g', lc', es) -> trg lc' s = Some (Some l) ->
@@ -581,18 +617,18 @@ Proof.
     try (inversion Ht; subst; eauto; fail).
 Qed.
 
-Definition pc_origin (lc : loc) (o : op) (p' : pc) : Prop :=
+Definition pc_origin (g : glob) (lc : loc) (o : op) (p' : pc) : Prop :=
   match p' with
   | Idle => True
   | P_store l => exists s, o = Destroy s /\ trg lc s = Some (Some l)
-  | P_load l None => exists s, o = IsTripped s /\ det lc s = Some l
-  | P_load l (Some d) => exists s, o = PollRead s d /\ det lc s = Some l
+  | P_load l None => exists s, (o = IsTripped s /\ det lc s = Some l) \/ (o = SIsTripped s /\ sdet g s = Some l)
+  | P_load l (Some d) => exists s, (o = PollRead s d /\ det lc s = Some l) \/ (o = SPollRead s d /\ sdet g s = Some l)
   | P_wbeg d v => o = WriteData d v
   | P_rbeg d => o = ReadData d
   | P_wend _ _ | P_rend _ => False
   end.
 Lemma dispatch_pc P g lc o r g' lc' es :
-  dispatch P g lc o r = (g', lc', es) -> pc_origin lc o (at_ lc').
+  dispatch P g lc o r = (g', lc', es) -> pc_origin g lc o (at_ lc').
 Proof. intros H. disp_cases H; cbn; eauto. Qed.
 
 Section Pub.
@@ -615,8 +651,16 @@ Section Pub.
     end.
   (* every other thread: attaches no trigger to L, and touches D only by "read if tripped"
      through a detector of L ([Dt] = its detector table, followed through the program) *)
+  (* every thread: the harness keeps its line references (no ReleaseLine), and shared detectors
+     are attached to the published line only *)
+  Definition plain_ok (o : op) : bool :=
+    match o with
+    | ReleaseLine _ => false
+    | _ => match sdet_line P o with Some l => Nat.eqb l L | None => true end
+    end.
+  Definition all_plain (pr : list op) : bool := forallb plain_ok pr.
   Definition op_ok (Dt : nat -> option nat) (o : op) : bool :=
-    negb (attaches o) &&
+    plain_ok o && negb (attaches o) &&
     match o with
     | WriteData d _ => negb (Nat.eqb d D)
     | ReadData d => negb (Nat.eqb d D)
@@ -629,7 +673,7 @@ Section Pub.
     | o :: r => op_ok Dt o && reader_ok (det_after P Dt o) r
     end.
   Definition wf_pub (progs : list (list op)) : bool :=
-    pub_ok (nth p progs []) &&
+    pub_ok (nth p progs []) && all_plain (nth p progs []) &&
     forallb (fun t => Nat.eqb t p || reader_ok (fun _ => None) (nth t progs [])) (seq 0 (length progs)).
 
   Lemma nowr_pub_ok pr : nowr pr = true -> pub_ok pr = true.
@@ -665,13 +709,18 @@ Section Pub.
     Q_pub   : pub_ok (prog (locof ls p)) = true;
     Q_rd    : forall t, t <> p -> reader_ok (det (locof ls t)) (prog (locof ls t)) = true /\
                                (forall s, trg (locof ls t) s <> Some (Some L)) /\ pc_ok (pcof ls t);
-    Q_dirty : cdirty (cells g D) = true -> exists v, pcof ls p = P_wend D v
+    Q_dirty : cdirty (cells g D) = true -> exists v, pcof ls p = P_wend D v;
+    Q_norel : forall l, released g l = false;
+    Q_sdet  : forall s l, sdet g s = Some l -> l = L;
+    Q_plain : all_plain (prog (locof ls p)) = true
   }.
 
   Lemma wf_pub_spec progs : wf_pub progs = true ->
-    pub_ok (nth p progs []) = true /\ forall t, t <> p -> reader_ok (fun _ => None) (nth t progs []) = true.
+    (pub_ok (nth p progs []) = true /\ all_plain (nth p progs []) = true) /\
+    forall t, t <> p -> reader_ok (fun _ => None) (nth t progs []) = true.
   Proof.
-    unfold wf_pub. intros H. apply andb_true_iff in H as [H1 H2]. split; [exact H1|].
+    unfold wf_pub. intros H. apply andb_true_iff in H as [H1 H2]. apply andb_true_iff in H1.
+    split; [exact H1|].
     intros t Ht. destruct (lt_dec t (length progs)) as [Hlt|Hge].
     - rewrite forallb_forall in H2. specialize (H2 t). rewrite in_seq in H2.
       assert ((t =? p)%nat = false) as E by (apply Nat.eqb_neq; exact Ht). rewrite E in H2. apply H2. lia.
@@ -680,13 +729,14 @@ Section Pub.
 
   Lemma PInv_init progs : wf_pub progs = true -> PInv (gl (init progs)) (thr (init progs)).
   Proof.
-    intros Hwf. destruct (wf_pub_spec _ Hwf) as [Hp Hr].
-    constructor; cbn; unfold fD; cbn; auto; try lia; try contradiction.
+    intros Hwf. destruct (wf_pub_spec _ Hwf) as [[Hp Hpl] Hr].
+    constructor; cbn; unfold fD; cbn; auto; try lia; try contradiction; try discriminate.
     - unfold vzero. lia.
     - intros t _ E. unfold pcof in E. rewrite locof_init in E. discriminate.
     - intros _. split; [reflexivity|]. unfold pcof. rewrite locof_init. discriminate.
     - rewrite locof_init. exact Hp.
     - intros t Ht. unfold pcof. rewrite locof_init. cbn. repeat split; auto. discriminate.
+    - rewrite locof_init. exact Hpl.
   Qed.
 
   Lemma disp_same g g' lc' : disp_glob P g g' lc' ->
@@ -699,6 +749,9 @@ Section Pub.
   Ltac thread_split u t Hlu Hpu :=
     rewrite ?Hlu, ?Hpu; destruct (Nat.eqb_spec u t) as [->|?].
 
+  Lemma plain_sdet o l : plain_ok o = true -> sdet_line P o = Some l -> l = L.
+  Proof. unfold plain_ok. intros H E. destruct o; try discriminate; rewrite E in H; apply Nat.eqb_eq; exact H. Qed.
+
   Lemma PInv_step_invoke g ls t lc o r g' lc' es :
     PInv g ls -> nth_error ls t = Some lc -> at_ lc = Idle -> prog lc = o :: r ->
     dispatch P g lc o r = (g', lc', es) -> PInv g' (upd ls t lc').
@@ -710,11 +763,18 @@ Section Pub.
       by (intros u; unfold pcof; rewrite Hlu; destruct (Nat.eqb u t); reflexivity).
     assert (Hlt : locof ls t = lc) by (apply locof_at; exact Hl).
     assert (Hpt : pcof ls t = Idle) by (unfold pcof; rewrite Hlt; exact Hpc).
-    destruct HI as [Qrace Qwho Qwhen Qmsgs Qrdrs Qrdp Qobs Qpre Qpub Qrd Qdirty].
+    destruct HI as [Qrace Qwho Qwhen Qmsgs Qrdrs Qrdp Qobs Qpre Qpub Qrd Qdirty Qnorel Qsdet Qplain].
     destruct (disp_same _ _ _ (dispatch_glob _ _ _ _ _ _ _ _ Hd)) as (E1 & E2 & E3 & E4).
     pose proof (dispatch_prog _ _ _ _ _ _ _ _ Hd) as Hprog.
-    pose proof (dispatch_det _ _ _ _ _ _ _ _ Hd) as Hdet.
+    pose proof (dispatch_det _ _ _ _ _ _ _ _ Qnorel Hd) as Hdet.
     pose proof (dispatch_pc _ _ _ _ _ _ _ _ Hd) as Hpco.
+    destruct (dispatch_tables _ _ _ _ _ _ _ _ Hd) as [Hrl Hsd].
+    assert (Hpo : plain_ok o = true).
+    { destruct (Nat.eq_dec t p) as [->|Hne].
+      - rewrite Hlt, Hpr in Qplain. cbn in Qplain. apply andb_true_iff in Qplain as [A _]. exact A.
+      - destruct (Qrd t Hne) as (Hro & _ & _). rewrite Hlt, Hpr in Hro. cbn [reader_ok] in Hro.
+        apply andb_true_iff in Hro as [Hop _]. unfold op_ok in Hop.
+        apply andb_true_iff in Hop as [Hop _]. apply andb_true_iff in Hop as [A _]. exact A. }
     constructor; unfold fD in *; rewrite ?E1, ?E2, ?E3, ?E4; auto.
     - (* Q_obs *)
       intros u Hu. rewrite Hpu. destruct (Nat.eqb_spec u t) as [->|Hne]; [|apply Qobs; exact Hu].
@@ -736,24 +796,39 @@ Section Pub.
       rewrite Hprog. rewrite Hlt, Hpr in Qpub. eapply pub_ok_tail; eauto.
     - (* Q_rd *)
       intros u Hu. rewrite Hlu, Hpu. destruct (Nat.eqb_spec u t) as [->|Hne]; [|apply Qrd; exact Hu].
-      destruct (Qrd t Hu) as (Hro & Htr & _). rewrite Hlt in Hro, Htr. rewrite Hpr in Hro. cbn in Hro.
+      destruct (Qrd t Hu) as (Hro & Htr & _). rewrite Hlt in Hro, Htr. rewrite Hpr in Hro. cbn [reader_ok] in Hro.
       apply andb_true_iff in Hro as [Hop Hro]. unfold op_ok in Hop. apply andb_true_iff in Hop as [Hna Hop].
+      apply andb_true_iff in Hna as [_ Hna].
       split; [rewrite Hdet, Hprog; exact Hro|]. split.
       + intros s E. destruct (dispatch_trg _ _ _ _ _ _ _ _ _ _ Hd E) as [[s0 E0]|E0]; [eapply Htr; eauto|].
         unfold attaches in Hna. rewrite E0, Nat.eqb_refl in Hna. discriminate.
       + destruct (at_ lc') as [|l|l [d|]|d v|d v|d|d] eqn:Ea; cbn in Hpco |- *; auto.
         * destruct Hpco as (s & -> & E). intros ->. eapply Htr; eauto.
-        * destruct Hpco as (s & -> & E). intros ->. rewrite Nat.eqb_refl, E in Hop. cbn in Hop.
-          apply Nat.eqb_eq. exact Hop.
+        * destruct Hpco as (s & [[-> E]|[-> E]]); intros ->.
+          -- rewrite Nat.eqb_refl, E in Hop. cbn in Hop. apply Nat.eqb_eq. exact Hop.
+          -- eapply Qsdet; eauto.
         * subst o. intros ->. rewrite Nat.eqb_refl in Hop. discriminate.
     - (* Q_dirty *)
       intros Hd'. destruct (Qdirty Hd') as [v Hv]. rewrite Hpu.
       destruct (Nat.eqb_spec p t) as [->|Hne]; [rewrite Hpt in Hv; discriminate|eauto].
+    - (* Q_norel *)
+      destruct Hrl as [->|[l ->]]; [exact Qnorel|discriminate].
+    - (* Q_sdet *)
+      intros s l E. destruct (Hsd s l E) as [E0|E0]; [eapply Qsdet; eauto|eapply plain_sdet; eauto].
+    - (* Q_plain *)
+      rewrite Hlu. destruct (Nat.eqb_spec p t) as [->|Hne]; [|exact Qplain].
+      rewrite Hprog. rewrite Hlt, Hpr in Qplain. cbn in Qplain. apply andb_true_iff in Qplain as [_ A]. exact A.
   Qed.
 
   (* steps inside an operation keep program and slot tables: lc' = goto lc q *)
   Lemma goto_pub ls t lc q : nth_error ls t = Some lc ->
     pub_ok (prog (locof ls p)) = true -> pub_ok (prog (locof (upd ls t (goto lc q)) p)) = true.
+  Proof.
+    intros Hl H. rewrite (locof_upd _ _ _ _ _ Hl). destruct (Nat.eqb_spec p t) as [->|]; [|exact H].
+    rewrite (locof_at _ _ _ Hl) in H. exact H.
+  Qed.
+  Lemma goto_plain ls t lc q : nth_error ls t = Some lc ->
+    all_plain (prog (locof ls p)) = true -> all_plain (prog (locof (upd ls t (goto lc q)) p)) = true.
   Proof.
     intros Hl H. rewrite (locof_upd _ _ _ _ _ Hl). destruct (Nat.eqb_spec p t) as [->|]; [|exact H].
     rewrite (locof_at _ _ _ Hl) in H. exact H.
@@ -789,7 +864,7 @@ Section Pub.
       by (intros u; unfold pcof; rewrite Hlu; destruct (Nat.eqb u t); reflexivity).
     assert (Hlt : locof ls t = lc) by (apply locof_at; exact Hl).
     assert (Hpt : pcof ls t = P_store l) by (unfold pcof; rewrite Hlt; exact Hpc).
-    destruct HI as [Qrace Qwho Qwhen Qmsgs Qrdrs Qrdp Qobs Qpre Qpub Qrd Qdirty].
+    destruct HI as [Qrace Qwho Qwhen Qmsgs Qrdrs Qrdp Qobs Qpre Qpub Qrd Qdirty Qnorel Qsdet Qplain].
     assert (HlL : t <> p -> l <> L).
     { intros Hne. destruct (Qrd t Hne) as (_ & _ & Hk). rewrite Hpt in Hk. exact Hk. }
     assert (Hck : forall u, vle (clk g u) (clk (do_store P t l g) u)).
@@ -817,6 +892,7 @@ Section Pub.
     - apply goto_rd; cbn; auto.
     - intros Hd. apply (goto_dirty ls t lc Idle (cdirty (cells g D) = true) Hl); auto.
       intros -> Hd'. destruct (Qdirty Hd') as [v Hv]. rewrite Hpt in Hv. discriminate.
+    - apply goto_plain; auto.
   Qed.
 
   Definition after_load (k : option nat) (v : Z) : pc :=
@@ -833,7 +909,7 @@ Section Pub.
       by (intros u; unfold pcof; rewrite Hlu; destruct (Nat.eqb u t); reflexivity).
     assert (Hlt : locof ls t = lc) by (apply locof_at; exact Hl).
     assert (Hpt : pcof ls t = P_load l k) by (unfold pcof; rewrite Hlt; exact Hpc).
-    destruct HI as [Qrace Qwho Qwhen Qmsgs Qrdrs Qrdp Qobs Qpre Qpub Qrd Qdirty].
+    destruct HI as [Qrace Qwho Qwhen Qmsgs Qrdrs Qrdp Qobs Qpre Qpub Qrd Qdirty Qnorel Qsdet Qplain].
     assert (Hck : forall u, vle (clk g u) (clk (do_load P t c l g) u)).
     { intros u. cbn. apply clk_fupd_mono. apply read_clock_mono. }
     assert (Hq : (q = Idle \/ exists d, q = P_rbeg d)).
@@ -865,6 +941,7 @@ Section Pub.
     - apply goto_rd; auto. intros _. destruct Hq as [->|[d ->]]; exact I.
     - intros Hd. apply (goto_dirty ls t lc q (cdirty (cells g D) = true) Hl); auto.
       intros -> Hd'. destruct (Qdirty Hd') as [v Hv]. rewrite Hpt in Hv. discriminate.
+    - apply goto_plain; auto.
   Qed.
 
   (* ---- the four window steps, as functions on the cell table ---- *)
@@ -877,6 +954,10 @@ Section Pub.
   Lemma wbeg_rest t d g : hs (fst (do_wbeg P t d g)) = hs g /\ clk (fst (do_wbeg P t d g)) = clk g.
   Proof. unfold do_wbeg, ft_write. cbn. auto. Qed.
 
+  Lemma wbeg_tabs t d g : released (fst (do_wbeg P t d g)) = released g /\ sdet (fst (do_wbeg P t d g)) = sdet g.
+  Proof. unfold do_wbeg, ft_write. cbn. auto. Qed.
+  Lemma rbeg_tabs t d g : released (fst (do_rbeg t d g)) = released g /\ sdet (fst (do_rbeg t d g)) = sdet g.
+  Proof. unfold do_rbeg, ft_read. cbn. auto. Qed.
   Lemma wend_cells d v g d' : cells (do_wend d v g) d' =
     if Nat.eqb d' d then Cell v (crd (cells g d)) false (cft (cells g d)) else cells g d'.
   Proof. unfold do_wend. cbn. unfold fupd. destruct (Nat.eqb d' d); reflexivity. Qed.
@@ -909,20 +990,21 @@ Section Pub.
   Lemma PInv_step_cell g g' ls t lc q :
     PInv g ls -> nth_error ls t = Some lc ->
     hs g' = hs g -> clk g' = clk g -> cft (cells g' D) = cft (cells g D) -> grace g' D = grace g D ->
+    released g' = released g -> sdet g' = sdet g ->
     (cdirty (cells g' D) = true -> cdirty (cells g D) = true) ->
     (forall v0, at_ lc = P_wend D v0 -> cdirty (cells g' D) = true -> exists v, q = P_wend D v) ->
     q <> P_rbeg D -> q <> P_store L -> (t <> p -> pc_ok q) -> (is_wr q = true -> is_wr (at_ lc) = true) ->
     PInv g' (upd ls t (goto lc q)).
   Proof.
-    intros HI Hl E1 E2 E3 E4 Hd1 Hd2 Hq1 Hq2 Hq3 Hq4.
+    intros HI Hl E1 E2 E3 E4 E5 E6 Hd1 Hd2 Hq1 Hq2 Hq3 Hq4.
     assert (Hlu : forall u, locof (upd ls t (goto lc q)) u = if Nat.eqb u t then goto lc q else locof ls u)
       by (intros; apply (locof_upd _ _ _ _ _ Hl)).
     assert (Hpu : forall u, pcof (upd ls t (goto lc q)) u = if Nat.eqb u t then q else pcof ls u)
       by (intros u; unfold pcof; rewrite Hlu; destruct (Nat.eqb u t); reflexivity).
     assert (Hlt : locof ls t = lc) by (apply locof_at; exact Hl).
     assert (Hpt : pcof ls t = at_ lc) by (unfold pcof; rewrite Hlt; reflexivity).
-    destruct HI as [Qrace Qwho Qwhen Qmsgs Qrdrs Qrdp Qobs Qpre Qpub Qrd Qdirty].
-    constructor; unfold fD in *; rewrite ?E1, ?E2, ?E3, ?E4; auto.
+    destruct HI as [Qrace Qwho Qwhen Qmsgs Qrdrs Qrdp Qobs Qpre Qpub Qrd Qdirty Qnorel Qsdet Qplain].
+    constructor; unfold fD in *; rewrite ?E1, ?E2, ?E3, ?E4, ?E5, ?E6; auto.
     - intros u Hu. rewrite Hpu. destruct (Nat.eqb_spec u t) as [->|Hne]; [intros E; contradiction|apply Qobs; exact Hu].
     - rewrite Hlu, Hpu. destruct (Nat.eqb_spec p t) as [->|Hne]; [|exact Qpre].
       rewrite Hlt, Hpt in Qpre. intros Hm. split; [|exact Hq2]. apply Qpre.
@@ -931,6 +1013,7 @@ Section Pub.
     - apply goto_rd; auto.
     - intros Hd. apply (goto_dirty ls t lc q (cdirty (cells g' D) = true) Hl); auto.
       intros -> Hd'. destruct (Qdirty (Hd1 Hd')) as [v Hv]. rewrite Hpt in Hv. eapply Hd2; eauto.
+    - apply goto_plain; auto.
   Qed.
 
   Lemma eqb_D_false d : d <> D -> Nat.eqb D d = false.
@@ -971,7 +1054,7 @@ Section Pub.
         by (intros; apply (locof_upd _ _ _ _ _ Hl)).
       assert (Hpu : forall u, pcof (upd ls t (goto lc (P_wend D v))) u = if Nat.eqb u t then P_wend D v else pcof ls u)
         by (intros u; unfold pcof; rewrite Hlu; destruct (Nat.eqb u t); reflexivity).
-      destruct HI as [Qrace Qwho Qwhen Qmsgs Qrdrs Qrdp Qobs Qpre Qpub Qrd Qdirty].
+      destruct HI as [Qrace Qwho Qwhen Qmsgs Qrdrs Qrdp Qobs Qpre Qpub Qrd Qdirty Qnorel Qsdet Qplain].
       assert (t = p) as ->.
       { destruct (Nat.eq_dec t p) as [E|Hne]; [exact E|exfalso].
         destruct (Qrd t Hne) as (_ & _ & Hk). rewrite Hpt in Hk. apply Hk. reflexivity. }
@@ -992,7 +1075,10 @@ Section Pub.
       + apply goto_pub; auto.
       + apply goto_rd; auto. intros Hne. contradiction.
       + intros _. exists v. rewrite Hpu, Nat.eqb_refl. reflexivity.
-    - apply (PInv_step_cell g); auto; try discriminate.
+      + destruct (wbeg_tabs p D g) as [-> _]. exact Qnorel.
+      + destruct (wbeg_tabs p D g) as [_ ->]. exact Qsdet.
+      + apply goto_plain; auto.
+    - destruct (wbeg_tabs t d g) as [E5 E6]. apply (PInv_step_cell g); auto; try discriminate.
       + rewrite wbeg_cells, (eqb_D_false _ HdD). reflexivity.
       + rewrite wbeg_grace, (eqb_D_false _ HdD). reflexivity.
       + rewrite wbeg_cells, (eqb_D_false _ HdD). auto.
@@ -1012,7 +1098,7 @@ Section Pub.
         by (intros; apply (locof_upd _ _ _ _ _ Hl)).
       assert (Hpu : forall u, pcof (upd ls t (goto lc (P_rend D))) u = if Nat.eqb u t then P_rend D else pcof ls u)
         by (intros u; unfold pcof; rewrite Hlu; destruct (Nat.eqb u t); reflexivity).
-      destruct HI as [Qrace Qwho Qwhen Qmsgs Qrdrs Qrdp Qobs Qpre Qpub Qrd Qdirty].
+      destruct HI as [Qrace Qwho Qwhen Qmsgs Qrdrs Qrdp Qobs Qpre Qpub Qrd Qdirty Qnorel Qsdet Qplain].
       constructor; unfold fD in *; rewrite ?E1, ?E2, ?rbeg_cells, ?rbeg_grace, ?Nat.eqb_refl; cbn [cft fwho fwhen fR cdirty]; auto.
       + rewrite Qrace. cbn [orb]. apply negb_false_iff. apply ft_read_ok.
         destruct Qwho as [E|E]; [rewrite E; lia|rewrite E].
@@ -1028,7 +1114,8 @@ Section Pub.
       + apply goto_rd; auto. intros _. exact I.
       + intros Hd. apply (goto_dirty ls t lc (P_rend D) (cdirty (cells g D) = true) Hl); auto.
         intros -> Hd'. destruct (Qdirty Hd') as [v Hv]. rewrite Hpt in Hv. discriminate.
-    - apply (PInv_step_cell g); auto; try discriminate.
+      + apply goto_plain; auto.
+    - destruct (rbeg_tabs t d g) as [E5 E6]. apply (PInv_step_cell g); auto; try discriminate.
       + rewrite rbeg_cells, (eqb_D_false _ HdD). reflexivity.
       + rewrite rbeg_grace, (eqb_D_false _ HdD). reflexivity.
       + rewrite rbeg_cells, (eqb_D_false _ HdD). auto.
